@@ -228,7 +228,7 @@ def tstep (s : TState) (ws : List String) : TState × String :=
       match parseInt? k with
       | some k =>
         if d ≠ "fwd" ∧ d ≠ "rev" then bad else
-        run (.foreach (d = "fwd") (fun i _ _ => if (i : Int) = k then 7 else 0))
+        run (.foreach (d = "fwd") (fun i _ _ => if (i : Int) = k then stopValue k else 0))
       | none => bad
     | ["clear"] => run .clear
     | ["swap"] =>
